@@ -169,6 +169,24 @@ func runC12(c *Ctx) {
 		}
 	})
 	c.SetCount("byte_alphabet_word_sets_len<=2", total)
+	// alphabets whose letters agree in their low bits (0x21/0x61/0xA1 agree mod 64; 0x05/0x85 differ in the top bit
+	// only, 0x06 in the low bits): hashing or masking labels must not identify them
+	for _, al := range [][]byte{{0x21, 0x61, 0xA1}, {0x05, 0x85, 0x06}} {
+		al := al
+		ux := wordsUpTo(al, 2)
+		tot := int64(1) << uint(len(ux))
+		c.parFor(tot, 64, func(lo, hi int64) {
+			for s := lo; s < hi; s++ {
+				ws := subsetOf(ux, uint64(s))
+				dc := dawgCase{Words: ws, Alpha: string(al) + "z", ProbeLen: 3}
+				c.Check(func() *Failure { return evalDawgSet(dc) })
+				if len(ws) >= 2 {
+					c.Nontrivial(1)
+				}
+			}
+		})
+		c.Count("colliding_label_alphabet_word_sets_len<=2", tot)
+	}
 	{
 		maxSize := 5
 		if c.Thorough() {
@@ -334,6 +352,9 @@ func runC12(c *Ctx) {
 		for i := lo; i < hi; i++ {
 			bc := builderCase{Steps: seqs[i], ZeroValue: i%2 == 1}
 			c.Check(func() *Failure { return evalBuilder(bc) })
+			if len(bc.Steps) <= 5 {
+				c.Check(func() *Failure { return evalNewList(bc) })
+			}
 			c.Trans(int64(len(bc.Steps)) + 1)
 			if len(bc.Steps) >= 2 {
 				c.Nontrivial(1)
@@ -346,8 +367,61 @@ func runC12(c *Ctx) {
 	c.Assume("the caller does not modify a word slice after passing it to Add")
 }
 
+// evalNewList: the same lists handed to New in one go: an error exactly when the list is not strictly increasing,
+// and otherwise the automaton of the list.
+func evalNewList(bc builderCase) *Failure {
+	mk := func(cl, what string) *Failure {
+		return &Failure{Class: "dawg/New/" + cl, What: fmt.Sprintf("New(%s): %s", js(bc.Steps), what), Kind: "dawg-new-list", Replay: bc}
+	}
+	var list [][]byte
+	var words []string
+	valid := true
+	dup := false
+	for i, st := range bc.Steps {
+		if st.IsNil {
+			list = append(list, nil)
+		} else {
+			list = append(list, []byte(st.Word))
+		}
+		if i > 0 {
+			if c := bytes.Compare([]byte(bc.Steps[i-1].Word), []byte(st.Word)); c >= 0 {
+				valid = false
+				if c == 0 {
+					dup = true
+				}
+			}
+		}
+		words = append(words, st.Word)
+	}
+	var d *dawg.Dawg
+	var err error
+	if msg, p := try(func() { d, err = dawg.New(list) }); p {
+		return mk("panics", msg)
+	}
+	if !valid {
+		if err == nil {
+			if dup {
+				return mk("duplicate-accepted", fmt.Sprintf("no error; NumberOfWords = %d", d.NumberOfWords()))
+			}
+			return mk("out-of-order-accepted", "no error")
+		}
+		return nil
+	}
+	if err != nil {
+		return mk("valid-list-rejected", err.Error())
+	}
+	if cl, what := checkDawgAgainst(d, words, wordsUpTo([]byte("abc"), 3), true); cl != "" {
+		return mk("result/"+cl, what)
+	}
+	return nil
+}
+
 func replayC12(kind string, raw json.RawMessage) *Failure {
 	switch kind {
+	case "dawg-new-list":
+		var bc builderCase
+		json.Unmarshal(raw, &bc)
+		return evalNewList(bc)
 	case "dawg-set":
 		var dc dawgCase
 		json.Unmarshal(raw, &dc)
